@@ -13,11 +13,13 @@ Record proc := {
   pr_env : Z;                  (* Environment._env: the run whose environment the singleton is *)
   pr_cache : list (Z * Z);     (* results memoised through rqalpha.utils.functools.lru_cache: (key, value) *)
   pr_margin_on : bool;         (* Account.margin: the class property sums margins only after a futures position has existed in the process *)
-  pr_next_id : Z               (* order / trade id counters: never reset *)
+  pr_next_id : Z;              (* order / trade id counters: never reset *)
+  pr_future_apis : bool        (* the futures API module has been imported (it is, by the first run that configures a futures account; never undone) *)
 }.
 (* a new run: caches cleared, a new environment installed, the switches rewritten from the configuration *)
-Definition boot (cfg : switches) (rid : Z) (p : proc) : proc :=
-  {| pr_switches := cfg; pr_env := rid; pr_cache := []; pr_margin_on := pr_margin_on p; pr_next_id := pr_next_id p |}.
+Definition boot (cfg : switches) (has_future : bool) (rid : Z) (p : proc) : proc :=
+  {| pr_switches := cfg; pr_env := rid; pr_cache := []; pr_margin_on := pr_margin_on p; pr_next_id := pr_next_id p;
+     pr_future_apis := pr_future_apis p || has_future |}.
 
 Inductive pop :=
 | PSwitch (k : nat)                (* a position method reads a class-level switch *)
@@ -25,7 +27,8 @@ Inductive pop :=
 | PEnv                             (* Environment.get_instance() *)
 | PNewId                           (* next order / trade id *)
 | PMargin (margins : list Q)       (* Account.margin over the account's positions *)
-| POpenFuture.                     (* a position with a margin appears: the switch goes on for the rest of the process *)
+| POpenFuture                      (* a position with a margin appears: the switch goes on for the rest of the process *)
+| PFutureApi.                      (* a call of a futures-only API (get_future_contracts, buy_open ...): is it there at all? *)
 Inductive pout := OB (b : bool) | OZ (z : Z) | OQ (x : Q) | OId (z : Z) | ONone.
 
 Fixpoint lookup (key : Z) (c : list (Z * Z)) : option Z :=
@@ -43,14 +46,15 @@ Section Run.
         match lookup key (pr_cache p) with
         | Some v => (p, OZ v)
         | None => ({| pr_switches := pr_switches p; pr_env := pr_env p; pr_cache := (key, data key) :: pr_cache p;
-                      pr_margin_on := pr_margin_on p; pr_next_id := pr_next_id p |}, OZ (data key))
+                      pr_margin_on := pr_margin_on p; pr_next_id := pr_next_id p; pr_future_apis := pr_future_apis p |}, OZ (data key))
         end
     | PEnv => (p, OZ (pr_env p))
     | PNewId => ({| pr_switches := pr_switches p; pr_env := pr_env p; pr_cache := pr_cache p; pr_margin_on := pr_margin_on p;
-                    pr_next_id := pr_next_id p + 1 |}, OId (pr_next_id p))
+                    pr_next_id := pr_next_id p + 1; pr_future_apis := pr_future_apis p |}, OId (pr_next_id p))
     | PMargin ms => (p, OQ (if pr_margin_on p then sumq ms else 0%Q))
     | POpenFuture => ({| pr_switches := pr_switches p; pr_env := pr_env p; pr_cache := pr_cache p; pr_margin_on := true;
-                         pr_next_id := pr_next_id p |}, ONone)
+                         pr_next_id := pr_next_id p; pr_future_apis := pr_future_apis p |}, ONone)
+    | PFutureApi => (p, OB (pr_future_apis p))
     end.
   Fixpoint prun (p : proc) (ops : list pop) : list pout :=
     match ops with [] => [] | o :: t => let r := pstep p o in snd r :: prun (fst r) t end.
@@ -67,6 +71,8 @@ Fixpoint wf_ops (opened : bool) (ops : list pop) : Prop :=
   | POpenFuture :: t => wf_ops true t
   | _ :: t => wf_ops opened t
   end.
+(* a run only calls the futures-only APIs if its own configuration has a futures account (otherwise what it gets depends on earlier runs: D21) *)
+Definition api_safe (has_future : bool) (ops : list pop) : Prop := has_future = false -> ~ In PFutureApi ops.
 
 (* ---- data sets ---- *)
 Record instr := { i_id : Z; i_und : Z; i_future : bool; i_listed : Z; i_delisted : Z }.
